@@ -344,6 +344,7 @@ def run_ident(t, case, seed):
         t.outcomes["gain:" + ("unit" if gname == "unit" else "non-unit")] += 1
         datasets = [gains[s] * setups[s]["Y"] for s in range(nset)]
         ref_ind = [[int(c) for c in su["refpos"]] for su in setups]
+        _collider(seed, [d.shape for d in datasets], ref_ind, fs, br, o, meth)
         for route in ("func", "class"):
             matched = []
             res = None
@@ -400,6 +401,32 @@ def run_ident(t, case, seed):
                 except Exception as e:
                     res = ([("raises", f"{type(e).__name__}: {str(e)[:160]}")], {})
                 judge(t, case, seed, "mpe", gname, *res)
+
+
+_NOISE = {}
+
+
+def _collider(seed, shapes, ref_ind, fs, br, o, meth):
+    """Forced collision: immediately before the judged calls the same multi-setup class is run with IDENTICAL shapes,
+    reference lists and parameters on DIFFERENT data (payload noise) in another PreGER object; the result is thrown away.
+    State kept by the library between calls (caches keyed by shape/parameters, hoisted scratch buffers) then reaches the judged
+    run, which is no longer exact; a stateless library is unaffected."""
+    from pyoma2.algorithms import SSIcov_MS, SSIdat_MS
+    from pyoma2.setup import MultiSetup_PreGER
+
+    from mc import payload
+
+    key = tuple(shapes)
+    if key not in _NOISE:
+        _NOISE.clear()
+        _NOISE[key] = [payload.normal(seed, f"c03/collider/{j}/{sh[0]}x{sh[1]}", sh) for j, sh in enumerate(shapes)]
+    try:
+        ms = MultiSetup_PreGER(fs=fs, ref_ind=[list(r) for r in ref_ind], datasets=[d.copy() for d in _NOISE[key]])
+        cls = SSIcov_MS if meth == "cov_mm" else SSIdat_MS
+        ms.add_algorithms(cls(name="a", method=meth, br=int(br), ordmax=int(o), hc=dict(HC)))
+        ms.run_by_name("a")
+    except Exception:
+        pass
 
 
 # =====================================================================================================
